@@ -6,7 +6,13 @@ package tscommon
 
 // a map entry's value field is never itself a map (protoc), so the recursion is at most one level deep
 //@ func TSFieldType(field *protogen.Field) (r string)
+//@   requires field != nil
 //@   decreases ite(field.Desc.IsMap(), 1, 0)
+//@   ensures scalar: !field.Desc.IsMap() && !field.Desc.IsList() && spec.scalarKindField(field) && spec.validKind(field.Desc.Kind()) ==> r == spec.wireClass(field)
+//@   ensures timestamp: !field.Desc.IsMap() && !field.Desc.IsList() && spec.isTimestamp(field) ==> r == spec.timestampClass(field)
+//@   ensures enum: !field.Desc.IsMap() && !field.Desc.IsList() && field.Desc.Kind() == protoreflect.EnumKind && field.Enum != nil ==> r == ite(spec.enumEncoding(field) == sebufhttp.EnumEncoding_ENUM_ENCODING_NUMBER, "number", string(field.Enum.Desc.Name()))
+//@   ensures message: !field.Desc.IsMap() && !field.Desc.IsList() && !spec.isTimestamp(field) && field.Desc.Kind() == protoreflect.MessageKind && field.Message != nil ==> r == string(field.Message.Desc.Name())
+//@   ensures list: !field.Desc.IsMap() && field.Desc.IsList() ==> r == TSElementType(field) + "[]"
 
 // visited-set recursion: every call either inserts a new full name (finitely many exist) or steps from a map
 // entry to its value message, which is never itself a map entry
@@ -29,3 +35,40 @@ package tscommon
 //@   requires enum != nil
 //@   modifies ms.enums
 //@   ensures inDom(ms.enums, string(enum.Desc.FullName()))
+
+// ---- declared TypeScript types follow the documented wire form (C07) ----
+
+//@ func TSScalarTypeForField(field *protogen.Field) (r string)
+//@   pure
+//@   requires field != nil
+//@   ensures wire_class: spec.scalarKindField(field) && spec.validKind(field.Desc.Kind()) ==> r == spec.wireClass(field)
+
+//@ func TSTimestampType(field *protogen.Field) (r string)
+//@   pure
+//@   ensures wire_class: r == spec.timestampClass(field)
+
+//@ func IsOptionalField(field *protogen.Field) (r bool)
+//@   pure
+//@   ensures r == spec.tsOptional(field)
+
+// a property is declared `name: T | null` iff nullable, else `name?: T` iff optional, else `name: T`
+//@ func GenerateFieldDeclaration(p Printer, field *protogen.Field)
+//@   requires field != nil
+//@   modifies *
+//@   at-call p requires marker: arg0 == spec.tsFieldFormat(field)
+//@   ensures one_line: count("p") == old(count("p")) + 1
+
+// ... also for the properties of a message inlined by flatten
+//@ func GenerateFlattenedFields(p Printer, childMsg *protogen.Message, prefix string)
+//@   requires childMsg != nil
+//@   modifies *
+//@   at-call p requires marker: arg0 == spec.tsFieldFormat(childMsg.Fields[_i1])
+//@   loop 1 invariant count("p") == old(count("p")) + _i1
+//@   ensures one_line_per_field: count("p") == old(count("p")) + len(childMsg.Fields)
+
+//@ func TSElementType(field *protogen.Field) (r string)
+//@   pure
+//@   requires field != nil
+//@   ensures scalar: spec.scalarKindField(field) && spec.validKind(field.Desc.Kind()) ==> r == spec.wireClass(field)
+//@   ensures timestamp: spec.isTimestamp(field) ==> r == spec.timestampClass(field)
+//@   ensures enum: field.Desc.Kind() == protoreflect.EnumKind && field.Enum != nil ==> r == ite(spec.enumEncoding(field) == sebufhttp.EnumEncoding_ENUM_ENCODING_NUMBER, "number", string(field.Enum.Desc.Name()))
